@@ -448,7 +448,7 @@ fn c02(seed: u64, case: u64, out: &Out) {
         ths.push(std::thread::spawn(move || {
             for k in 0..per {
                 let uid = j * 10_000 + k;
-                let mut kind = r.below(6); // 0 instant, 1 busy 1 ms, 2 delay 5 ms, 3 panic static, 4 panic formatted, 5 slow (80 ms) and joined twice
+                let mut kind = r.below(7); // 0 instant, 1 busy 1 ms, 2 delay 5 ms, 3 panic static, 4 panic formatted, 5 slow (80 ms) and joined twice, 6 instant and joined with a zero timeout after it has finished
                 if loops > 1 && kind == 2 {
                     // with several loops a suspended worker coroutine can be stolen by another loop thread, which is a known
                     // memory-safety finding of its own (see C22/C01 in known_findings.json): keep it out of this property's verdict
@@ -528,9 +528,17 @@ fn c02(seed: u64, case: u64, out: &Out) {
                     }
                     std::thread::sleep(Duration::from_millis(20));
                 }
+                if kind == 6 {
+                    // a try-join: the deadline is "now", the task has finished a while ago and its result is waiting
+                    let t0 = Instant::now();
+                    while FINISHED.lock().unwrap().as_ref().and_then(|m| m.get(&id).copied()).is_none() && t0.elapsed() < Duration::from_secs(3) {
+                        std::thread::sleep(Duration::from_millis(1));
+                    }
+                    std::thread::sleep(Duration::from_millis(20));
+                }
                 let t_call = mono_ns();
                 let fin_before = FINISHED.lock().unwrap().as_ref().and_then(|m| m.get(&id).copied());
-                let got = h.timeout_join(Duration::from_secs(3));
+                let got = h.timeout_join(if kind == 6 { Duration::ZERO } else { Duration::from_secs(3) });
                 let t_ret = mono_ns();
                 let fin = FINISHED.lock().unwrap().as_ref().and_then(|m| m.get(&id).copied()).unwrap_or(t_ret);
                 let want = match kind {
